@@ -13,6 +13,9 @@ open Mido.Py
 
 def natsToInts (xs : List Nat) : List Int := xs.map Int.ofNat
 
+/-- None or a natural number as Python's None or int -/
+def optInt (r : Option Nat) : Option Int := r.map Int.ofNat
+
 /-! ### encode.py -/
 
 theorem src_encode_pitchwheel (ch : Nat) (p : Int) (h : -8192 ≤ p) :
